@@ -24,9 +24,58 @@ pub struct Case {
     pub zero_length: bool,
     /// terminal event t = x0 + f*(xend-x0)
     pub terminal_at: Option<f64>,
+    /// the right-hand side becomes non-finite from a fraction of the span on (failed Newton iterations, rejected steps and
+    /// the failure exits must be counted as they happened)
+    #[serde(default)]
+    pub fault: Option<Fault>,
+    /// Radau / BDF through the low-level builder with this Newton iteration budget (1..3: iterations that run out of budget)
+    #[serde(default)]
+    pub low_newton: Option<usize>,
+}
+
+struct Quiet;
+impl ivp::solout::SolOut for Quiet {
+    fn solout(&mut self, _xold: f64, _x: &mut f64, _y: &mut [f64], _i: Option<&ivp::prelude::StepInterpolant<'_>>) -> ivp::prelude::ControlFlag {
+        ivp::prelude::ControlFlag::Continue
+    }
+}
+
+/// low-level Radau / BDF with a small Newton budget: evals.ode / evals.jac against the calls actually made
+fn check_low(c: &Case, k: usize) -> Outcome {
+    let sp = &c.span;
+    let prob = Prob::new(&c.prob, sp.x0, sp.xend);
+    let n = prob.n;
+    let none: Vec<EvSpec> = vec![];
+    let mut instr = Instr::new(&prob, &none);
+    instr.dir = sp.dir();
+    instr.use_jac = c.analytic_jac;
+    instr.budget = 3_000_000;
+    let lo = crate::lowlevel::LowOpts { first_step: c.first_step.map(|f| f * sp.len()), max_steps: Some(c.max_steps.unwrap_or(2000)), newton_maxiter: Some(k), identity_mass: true, ..Default::default() };
+    let mut so = Quiet;
+    let y0 = prob.y0();
+    let r = match guarded(|| crate::lowlevel::solve_low(c.method, &instr, sp.x0, sp.xend, &y0, &c.rtol.fit(n), &c.atol.fit(n), &lo, &mut so)) {
+        Ok(Ok(r)) => r,
+        Ok(Err(e)) => return Outcome::triv(format!("low-level:{}", e.chars().take(30).collect::<String>())),
+        Err(e) => return Outcome::triv(format!("low-level:{}", e.chars().take(30).collect::<String>())),
+    };
+    let log = instr.take_log();
+    let desc = format!("{} (low-level, newton_maxiter={}) {}", c.method.name(), k, status_name(r.status));
+    if r.evals.ode as u64 != log.ode_calls {
+        return Outcome::viol(format!("{}: evals.ode={} but the stepper made {} right-hand-side evaluations ({} more inside Jacobian differencing; {} accepted, {} rejected steps)", desc, r.evals.ode, log.ode_calls, log.ode_calls_in_jac, r.steps.accepted, r.steps.rejected));
+    }
+    if r.evals.jac as u64 != log.jac_calls {
+        return Outcome::viol(format!("{}: evals.jac={} but jac was called {} times", desc, r.evals.jac, log.jac_calls));
+    }
+    if r.steps.total < r.steps.accepted {
+        return Outcome::viol(format!("{}: steps.total {} < steps.accepted {}", desc, r.steps.total, r.steps.accepted));
+    }
+    Outcome::pass(format!("{}:low-newton-budget", c.method.name()), r.steps.rejected > 0 || r.steps.accepted >= 10, json!({"nfev": r.evals.ode, "rejected": r.steps.rejected}))
 }
 
 pub fn check(c: &Case) -> Outcome {
+    if let (Some(k), true) = (c.low_newton, c.method.implicit()) {
+        return check_low(c, k);
+    }
     let sp = &c.span;
     let (x0, xend) = if c.zero_length { (sp.x0, sp.x0) } else { (sp.x0, sp.xend) };
     let prob = Prob::new(&c.prob, sp.x0, sp.xend);
@@ -39,6 +88,11 @@ pub fn check(c: &Case) -> Outcome {
     instr.dir = sp.dir();
     instr.use_jac = c.analytic_jac;
     instr.rec_ev = true;
+    instr.fault = c.fault.as_ref().map(|f| match f {
+        Fault::From { at, v } => Fault::From { at: sp.x0 + at * (sp.xend - sp.x0), v: *v },
+        Fault::CompFrom { at, i, v } => Fault::CompFrom { at: sp.x0 + at * (sp.xend - sp.x0), i: *i % n.max(1), v: *v },
+        other => other.clone(),
+    });
     let opts = RunOpts {
         method: c.method,
         rtol: c.rtol.fit(n),
@@ -108,8 +162,16 @@ pub fn strategy() -> BoxedStrategy<Case> {
         proptest::option::weighted(0.25, t_eval_fracs(8)),
         any::<bool>(),
         (0u8..25, proptest::option::weighted(0.3, fr(0.05, 0.95)), 0u16..150, fr(3.0, 4.3)),
+        (proptest::option::weighted(0.08, prop_oneof![
+            3 => (fr(0.05, 0.98), 0u8..3).prop_map(|(at, v)| Fault::From { at, v }),
+            1 => (fr(0.05, 0.98), 0usize..6, 0u8..3).prop_map(|(at, i, v)| Fault::CompFrom { at, i, v }),
+        ]), proptest::option::weighted(0.06, 1usize..=3)),
     )
-        .prop_map(|(mut prob, span, mut method, (rtol, atol), analytic_jac, first_step, mut max_steps, t_eval, dense, (z, terminal_at, stiff, le))| {
+        .prop_map(|(mut prob, span, mut method, (rtol, atol), analytic_jac, first_step, mut max_steps, t_eval, dense, (z, terminal_at, stiff, le), (fault, low_newton))| {
+            // a faulty right-hand side can keep an explicit method busy for ever (C04's subject): bound those runs
+            if fault.is_some() && max_steps.is_none() {
+                max_steps = Some(3000);
+            }
             let first_step = match (method, first_step) {
                 (Meth::RK4, Some(f)) => Some(f.max(0.004)),
                 (_, f) => f,
@@ -126,7 +188,7 @@ pub fn strategy() -> BoxedStrategy<Case> {
                 method = if analytic_jac { Meth::DOPRI5 } else { Meth::DOP853 };
                 max_steps = None;
             }
-            Case { prob, span, method, rtol, atol, analytic_jac, first_step, max_steps, t_eval, dense, zero_length: z == 0, terminal_at }
+            Case { prob, span, method, rtol, atol, analytic_jac, first_step, max_steps, t_eval, dense, zero_length: z == 0, terminal_at, fault, low_newton }
         })
         .boxed()
 }
@@ -139,7 +201,7 @@ pub fn run(ctx: &Ctx, known: &[Known]) -> Report {
     let stats = run_generated(ctx, "C18", "gen", &strategy, &check, cases, known);
     Report {
         id: "C18".into(),
-        rule: "cases = closed-form problems (n<=6) x spans x six methods x tolerances 1e-3..1e-9 (scalar/vector) x analytic or finite-difference Jacobian x first_step x max_steps x t_eval x dense x optional terminal time event, plus zero-length runs. Oracle: counters of an instrumented IVP (ode calls outside Jacobian differencing, jac calls, one events() call per accepted step through a never-crossing event function). Non-trivial = at least one rejected step, or an implicit method (njev/nlu exercised), or a zero-length run. Distinct = distinct canonical JSON.".into(),
+        rule: "cases = closed-form problems (n<=6) x spans x six methods x tolerances 1e-3..1e-9 (scalar/vector) x analytic or finite-difference Jacobian x first_step x max_steps x t_eval x dense x optional terminal time event, plus zero-length runs; 8 % of the cases have a right-hand side that becomes NaN / +-inf from a generated time on (failed Newton iterations, rejected steps and failure exits are counted as they happened; max_steps <= 3000 there); 6 % drive Radau / BDF through the low-level builder with newton_maxiter = 1..3 and compare IntegrationResult.evals with the calls made. Oracle: counters of an instrumented IVP (ode calls outside Jacobian differencing, jac calls, one events() call per accepted step through a never-crossing event function). Non-trivial = at least one rejected step, or an implicit method (njev/nlu exercised), or a zero-length run. Distinct = distinct canonical JSON.".into(),
         assumptions: vec!["right-hand-side evaluations made by the crate's default finite-difference Jacobian are identified by a flag set while IVP::jac runs".into()],
         min_nontrivial_frac: 0.3,
         stats,
